@@ -229,6 +229,7 @@ func classify(c *Case) (bool, []string) {
 	add(st.OutlineItems > 0, "outline-items")
 	add(st.OutlineErr, "outline-error")
 	add(st.NameTrees > 0, "name-tree")
+	add(st.NumTrees > 0, "number-tree")
 	add(st.SeqOK, "seqscan-ok")
 	add(!st.SeqOK, "seqscan-failed")
 	add(st.MakeOK, "makereader-ok")
